@@ -76,11 +76,11 @@ sc_reduce_alltoall (sc_MPI_Comm mpicomm,
       else {
         if (peer < groupsize) {
           mpiret =
-            sc_MPI_Irecv (alldata + i * datasize, datasize, sc_MPI_BYTE, peer,
+            sc_MPI_Irecv (alldata + i * datasize, count, datatype, peer,
                           SC_TAG_REDUCE, mpicomm, rrequest + i);
           SC_CHECK_MPI (mpiret);
           if (doall) {
-            mpiret = sc_MPI_Isend (data, datasize, sc_MPI_BYTE,
+            mpiret = sc_MPI_Isend (data, count, datatype,
                                    peer, SC_TAG_REDUCE, mpicomm,
                                    srequest + i);
             SC_CHECK_MPI (mpiret);
@@ -127,7 +127,7 @@ sc_reduce_alltoall (sc_MPI_Comm mpicomm,
     SC_FREE (request);
   }
   else {
-    mpiret = sc_MPI_Send (data, datasize, sc_MPI_BYTE,
+    mpiret = sc_MPI_Send (data, count, datatype,
                           target, SC_TAG_REDUCE, mpicomm);
     SC_CHECK_MPI (mpiret);
   }
@@ -183,7 +183,7 @@ sc_reduce_recursive (sc_MPI_Comm mpicomm,
         /* temporary data to compare against peer */
         peerdata = SC_ALLOC (char, datasize);
 
-        mpiret = sc_MPI_Recv (peerdata, datasize, sc_MPI_BYTE,
+        mpiret = sc_MPI_Recv (peerdata, count, datatype,
                               peer, SC_TAG_REDUCE, mpicomm, &rstatus);
         SC_CHECK_MPI (mpiret);
 
@@ -205,19 +205,19 @@ sc_reduce_recursive (sc_MPI_Comm mpicomm,
 
       if (doall && peer < groupsize) {
         /* if allreduce send back result of reduction */
-        mpiret = sc_MPI_Send (data, datasize, sc_MPI_BYTE,
+        mpiret = sc_MPI_Send (data, count, datatype,
                               peer, SC_TAG_REDUCE, mpicomm);
         SC_CHECK_MPI (mpiret);
       }
     }
     else {
       if (peer < groupsize) {
-        mpiret = sc_MPI_Send (data, datasize, sc_MPI_BYTE,
+        mpiret = sc_MPI_Send (data, count, datatype,
                               peer, SC_TAG_REDUCE, mpicomm);
         SC_CHECK_MPI (mpiret);
         if (doall) {
           /* if allreduce receive back result of reduction */
-          mpiret = sc_MPI_Recv (data, datasize, sc_MPI_BYTE,
+          mpiret = sc_MPI_Recv (data, count, datatype,
                                 peer, SC_TAG_REDUCE, mpicomm, &rstatus);
           SC_CHECK_MPI (mpiret);
         }
